@@ -78,7 +78,8 @@ def plan_run(run_seed, prop):
         "sampler_mode": tp.weighted([("faithful", 3), ("adversarial", 4), ("numpy", 2)]),
         "hw_encoding": tp.choice(["int", "str", "mixed"]),
         "pipeline": tp.choice(["plain", "expand_let", "expand_macro", "expand_let_map", "fill_let", "passes_first", "autoload", "run_string", "run_file"]),
-        "bounding": tp.weighted([("native", 6), ("caller", 1)]),
+        "bounding": tp.weighted([("native", 5), ("caller", 1), ("names", 1), ("other_names", 0.7)]),
+        "return_usepulses": tp.chance(0.25),
         "rerun": tp.chance(0.35),
         "gateset_style": tp.choice(["direct", "direct", "copied"]),
         "gateset_variant": tp.randrange(4),
@@ -163,7 +164,15 @@ def result_digest(res):
 
 
 def parse_with(plan, text, G, pipeline, scratch=None):
-    from jaqalpaq.parser import parse_jaqal_string
+    from jaqalpaq.parser import parse_jaqal_string as _pjs
+
+    def parse_jaqal_string(t, **kw):
+        if plan.get("return_usepulses"):
+            c, extra = _pjs(t, return_usepulses=True, **kw)
+            if not isinstance(extra, dict) or "usepulses" not in extra:
+                raise AssertionError("return_usepulses: second value is %r" % (extra,))
+            return c
+        return _pjs(t, **kw)
 
     if pipeline in ("autoload", "run_string", "run_file"):
         # the gate set comes from a pulse-definition module named by the program
@@ -727,6 +736,14 @@ def check_c09_structure(viol, plan, texts, G, clock, budget, probe):
         if caller:
             pd, md = GateDefinition("prepare_all"), GateDefinition("measure_all")
             eA = expand_subcircuits(cA, prepare_def=pd, measure_def=md)
+        elif plan["bounding"] == "names":
+            # definitions named by strings that the native table knows
+            pd, md = G["prepare_all"], G["measure_all"]
+            eA = expand_subcircuits(cA, prepare_def="prepare_all", measure_def="measure_all")
+        elif plan["bounding"] == "other_names":
+            # strings the native table does not know: fresh definitions of those names
+            pd = md = None
+            eA = expand_subcircuits(cA, prepare_def="prepare_z", measure_def="measure_z")
         else:
             pd, md = G["prepare_all"], G["measure_all"]
             eA = expand_subcircuits(cA)
@@ -742,7 +759,28 @@ def check_c09_structure(viol, plan, texts, G, clock, budget, probe):
     except extract.Unresolvable as e:
         probe("c09_structure_unresolvable")
         return
-    if mE != mB:
+    if plan["bounding"] == "other_names":
+        # same shape as B with the bounding gates renamed
+        def ren(t):
+            if isinstance(t, tuple) and t and t[0] == "g":
+                return ("g", {"prepare_all": "prepare_z", "measure_all": "measure_z"}.get(t[1], t[1]), t[2])
+            if isinstance(t, tuple):
+                return tuple(ren(x) for x in t)
+            if isinstance(t, list):
+                return [ren(x) for x in t]
+            return t
+
+        # explicit prepare_all / measure_all already in A keep their names; only compare
+        # when A has none of its own
+        own = any(g.name in GS.BUSY for g in extract.iter_gates(cA))
+        if not own and mE != ren(mB):
+            viol.add("C09", "expanded_meaning_equals_spelled_out", "mismatch", "expand_subcircuits", "string-named bounding gates")
+        for g in extract.iter_gates(eA):
+            if g.name in ("prepare_z", "measure_z") and (type(g.gate_def).__name__ != "GateDefinition" or g.gate_def.parameters):
+                viol.add("C09", "bounding_gate_fresh_definition", "mismatch", g.name)
+                break
+        probe("c09_string_named_bounding_gates")
+    elif mE != mB:
         viol.add("C09", "expanded_meaning_equals_spelled_out", "mismatch", "expand_subcircuits")
     left = [b for b in extract.iter_blocks(eA) if getattr(b, "subcircuit", False)]
     if left:
@@ -754,12 +792,12 @@ def check_c09_structure(viol, plan, texts, G, clock, budget, probe):
         viol.add("C09", "header_unchanged", "mismatch", "expand_subcircuits", "%r vs %r" % (hdr_a, hdr_e))
     if list(cA.macros) != list(eA.macros):
         viol.add("C09", "macros_kept", "mismatch", "expand_subcircuits")
-    else:
+    elif plan["bounding"] != "other_names":
         for name in cB.macros:
             if name in eA.macros and extract.definition_view(eA, eA.macros[name]) != extract.definition_view(cB, cB.macros[name]):
                 viol.add("C09", "macro_definition_meaning", "mismatch", "expand_subcircuits", name)
                 break
-    for g in extract.iter_gates(eA):
+    for g in extract.iter_gates(eA) if pd is not None else ():
         if g.name == "prepare_all" and g.gate_def is not pd and not _in_source(g, cA):
             viol.add("C09", "bounding_gate_definition", "mismatch", "prepare")
             break
